@@ -349,20 +349,27 @@ class LFRicStencils(LFRicCollection):
 
         if self._unique_extent_vars:
             if self._kernel:
-                for arg in self._kern_args:
-                    if arg.descriptor.stencil['type'] == "cross2d":
-                        parent.add(DeclGen(
-                            parent, datatype="integer",
-                            kind=api_config.default_kind["integer"],
-                            dimension="4",
-                            entity_decls=self._unique_extent_vars, intent="in"
-                        ))
-                    else:
-                        parent.add(DeclGen(
-                            parent, datatype="integer",
-                            kind=api_config.default_kind["integer"],
-                            entity_decls=self._unique_extent_vars,
-                            intent="in"))
+                # Each stencil-size argument has the shape required by the
+                # stencil type of its own field.
+                cross2d_vars = [
+                    self.dofmap_size_symbol(self._symbol_table, arg).name
+                    for arg in self._unique_extent_args
+                    if arg.descriptor.stencil['type'] == "cross2d"]
+                other_vars = [name for name in self._unique_extent_vars
+                              if name not in cross2d_vars]
+                if cross2d_vars:
+                    parent.add(DeclGen(
+                        parent, datatype="integer",
+                        kind=api_config.default_kind["integer"],
+                        dimension="4",
+                        entity_decls=cross2d_vars, intent="in"
+                    ))
+                if other_vars:
+                    parent.add(DeclGen(
+                        parent, datatype="integer",
+                        kind=api_config.default_kind["integer"],
+                        entity_decls=other_vars,
+                        intent="in"))
             elif self._invoke:
                 parent.add(DeclGen(
                     parent, datatype="integer",
